@@ -235,6 +235,16 @@ def gen_C03(rng, tier):
                    4294967311 * 3, 2 ** 31, 2 ** 16, 2 ** 17, 5 ** 27, 7 ** 22, 109987, 109987 ** 2, 109987 ** 3, 110017,
                    110017 ** 2, 2 ** 41 - 1, 6700417 * 641]
         special += prime_powers_near(2 ** 64 - 1, 12) + prime_powers_near(2 ** 32, 12)
+        # composites that fool the usual primality short-cuts (round 9, C03-R9: Miller–Rabin with bases 2, 3, 5, 7 is wrong
+        # for exactly one number below 2^32): strong pseudoprimes to the first k prime bases, Carmichael numbers, Fermat and
+        # Euler pseudoprimes to base 2, Lucas / strong Lucas pseudoprimes, squares and products of neighbouring primes at 2^16
+        special += [2047, 1373653, 25326001, 3215031751, 3277, 4033, 4681, 8321, 15841, 29341, 42799, 49141, 52633, 65281, 74665,
+                    80581, 85489, 88357, 90751, 1194649, 12327121, 561, 1105, 1729, 2465, 2821, 6601, 8911, 10585, 15841, 29341,
+                    41041, 46657, 52633, 62745, 63973, 75361, 101101, 115921, 126217, 162401, 172081, 188461, 252601, 278545,
+                    294409, 314821, 334153, 340561, 399001, 410041, 449065, 488881, 512461, 4294438337 if False else 4293001441,
+                    341, 645, 1387, 1905, 2701, 4369, 4371, 323, 377, 1159, 1829, 3827, 5459, 5777, 10877, 16109, 18971,
+                    65519 * 65521, 65521 * 65537, 65537 * 65539, 65521 ** 2, 65519 ** 2, 4295098369 - 2 * 65537 - 2 * 65536,
+                    3215031751 * 3, 2152302898747, 3474749660383, 341550071728321]
         if not big:
             special = [q for q in special if q != 4294967291 ** 2]   # >= 2^63 with a 32-bit least factor: minutes in the model
         for q in special:
@@ -1234,6 +1244,21 @@ def gen_C14(rng, tier):
         for pnt in upts:
             h.ops.append("%s=eval %s %s" % (h.newe(), f, pnt))
         h.ops.append("obs %s" % f)
+        # the same point list, in the same order, in the ring the quotient ring was made from, in an unrelated ring object and
+        # in the quotient ring again, with other values (round 9, C14-R9: a Lagrange basis cached in the `ring` object that a
+        # ring shares with its quotient rings); likewise for the bivariate rings
+        for kring in rng.sample([0, 2, 1, 0], 4)[:rng.choice([2, 3, 4])]:
+            f2 = h.newu()
+            vals2 = [h.elem() if rng.random() < 0.8 else h.elem("0") for _ in upts]
+            h.ops.append("%s=interp@%d %s %s" % (f2, kring, ",".join(upts), ",".join(vals2)))
+            for pnt in upts[:2]:
+                h.ops.append("%s=eval %s %s" % (h.newe(), f2, pnt))
+            h.ops.append("obs %s" % f2)
+        for kring in [0, 1]:
+            g2 = h.newb()
+            vs2 = [h.elem() for _ in xs]
+            h.ops.append("%s=interp@%d %s %s %s" % (g2, kring, ",".join(xs), ",".join(ys), ",".join(vs2)))
+            h.ops.append("obs %s" % g2)
         L.append(h.line())
     # whole field
     for desc in fields(SMALL_Q[:10]):
@@ -1979,6 +2004,30 @@ def gen_C18(rng, tier):
                 r2 = h.newe(); h.ops.append("%s=%s" % (r2, op1)); es.append(r2)
                 h.ops.append("%s=times %s %s" % (h.newe(), x, r2))
         L.append(h.line())
+    # strings parsed in a field WITH its table (round 9, C18-R9a: a parser that consults the table for bare powers of
+    # the generator): powers a^e with e around q-1, q and their multiples, in every notation the grammar has, alone, in
+    # sums, and as coefficients of univariate and bivariate polynomials; before and after the table exists
+    for (p, k, ext) in ([(3, 2, False), (2, 2, True), (5, 2, False), (3, 3, False), (2, 3, True), (7, 2, False), (2, 4, True)]
+                        if tier == "thorough" else [(3, 2, False), (2, 2, True), (5, 2, False), (3, 3, False)]):
+        desc = field_desc(p, k, force_ext=ext)
+        q = p ** k
+        exps_ = sorted({0, 1, 2, q - 2, q - 1, q, q + 1, 2 * (q - 1) - 1, 2 * (q - 1), 2 * (q - 1) + 1, 2 * q, 3 * (q - 1), q * q - 1, q * q})
+        forms = ["a^%d", "a%d", "A^%d", " a^%d ", "2a^%d", "a^%d + 1", "a^%d + a^%d", "(a^%d)X + a%d", "(a^%d)XY + a^%d"]
+        strs = []
+        for e in exps_:
+            for f in forms:
+                strs.append(f % ((e,) * f.count("%d")))
+        for i in range(0, len(strs), 9):
+            h = H(rng, desc, bspec=bspec(rng, order="lex.1"), snap=False)
+            first = strs[i]
+            h.ops.append("%s=str@0 %s" % (h.newe(), hexs(first)))
+            h.ops.append("tables@0 1 1 -")
+            for s_ in strs[i:i + 9]:
+                tok = hexs(s_)
+                h.ops.append("%s=str@0 %s" % (h.newe(), tok))
+                h.ops.append("%s=str@0 %s" % (h.newu(), tok))
+                h.ops.append("%s=str@0 %s" % (h.newb(), tok))
+            L.append(h.line())
     # every element of a field with its table against a twin field object without table (x*g, x^-1, x*1)
     for (p, k, ext) in ([(2, 16, True), (17, 4, False), (5, 7, False), (257, 2, False), (41, 3, False), (3, 2, False), (251, 1, False), (1021, 1, False), (2, 3, True), (7, 1, True)]
                         if tier == "thorough" else [(17, 4, False), (2, 16, True), (3, 3, False), (251, 1, False)]):
